@@ -53,7 +53,7 @@ class CellResult:
 
 def _env(part, nparts, twin, tier, symbolic=True):
     env = dict(os.environ)
-    env['PYTHONPATH'] = VERIF
+    env['PYTHONPATH'] = (os.environ['VERIF_REPO'] + ':' if os.environ.get('VERIF_REPO') else '') + VERIF
     env['PYTHONHASHSEED'] = '0'
     env['VERIF_PART'] = f'{part}/{nparts}'
     env['VERIF_TIER'] = tier
